@@ -45,6 +45,9 @@ def effGrade (g : String) : String := if upperAscii g == "" then gradeC else upp
 
 def nodupB (l : List String) : Bool := l.eraseDups.length == l.length
 
+/-- the key `checkSniConf` compares: the name in lower case since the repair, verbatim before -/
+def sniDupKey (name : String) : String := if sniConfDuplicateCheckFoldsCase then lowerAscii name else name
+
 /-- certs: (name, DNS names); caFiles: the `<name>.crt` files present in the client CA directory -/
 def validConf (certs : List (String × List String)) (caFiles : List String) : ConfFile → Bool
   | .garbage => false
@@ -53,7 +56,7 @@ def validConf (certs : List (String × List String)) (caFiles : List String) : C
     ps.all (fun p => !p.cert.isEmpty && protosOk p.protos && gradeOk p.grade && p.ca != "E" &&
       p.vips.all fun v => (canonVip v).isSome) &&
     nodupB (ps.flatMap fun p => p.vips.filterMap canonVip) &&
-    nodupB (ps.flatMap fun p => p.snis) &&
+    nodupB ((ps.flatMap fun p => p.snis).map sniDupKey) &&
     ps.all (fun p => p.ca == "0" || caFiles.contains p.ca) &&
     ps.all (fun p => match lookup certs p.cert with
       | none => false
